@@ -507,6 +507,15 @@ func main() {
 			st.Samples = append(st.Samples, o)
 		}
 	}
+	for _, o := range outs {
+		// never an empty sample list: fall back to natural-order launches
+		if len(st.Samples) >= 2 {
+			break
+		}
+		if o.Viol == nil && o.Plan.Kind == "S1" {
+			st.Samples = append(st.Samples, o)
+		}
+	}
 	st.Distinct = len(distinct)
 	sort.SliceStable(st.Outcomes, func(a, b int) bool { return st.Outcomes[a].Plan.Kind < st.Outcomes[b].Plan.Kind })
 	b, _ := json.MarshalIndent(st, "", " ")
